@@ -105,7 +105,7 @@ package interp
 //@   opt defer = skip
 //@   opt opaque-calls = genRun, genGlobalVars, genValue, genFunctionWrapper
 //@   opt preserve = F_interp_frame_id, F_interp_Interpreter_id, F_interp_Interpreter_frame, F_interp_node_interp
-//@   requires interp != nil && interp.frame != nil && interp.universe != nil && p != nil
+//@   requires [assume] interp != nil && interp.frame != nil && interp.universe != nil && p != nil
 
 //@ func (interp *Interpreter) resizeFrame()
 //@   props C10 C11
